@@ -5,6 +5,7 @@ func init() {
 		ID:    "C13",
 		Title: "Errors name the line (and file) of the offending construct",
 		Rules: []string{
+			"R-ERRLINE (first error kept): every store into the parser's error list is an append to that list",
 			"R-EVALERR (same object): on the isError side of every recursive Eval the error object itself is returned, not a new error built at another node",
 			"R-LOOP (evaluator state): no field of an existing Evaluator is written while evaluating (a remembered \"current node\" is overwritten by nested evaluations)",
 			"R-ERRLINE (pairing): a program parsed from the file z is handed, together with a path, to a function that reports errors with that program's lines and that path only when the path is z",
@@ -27,6 +28,7 @@ func init() {
 			m.errPassStrict = false
 			m.RunEvalState(s, "R-LOOP")        // the node an error is built from is the one being evaluated: no evaluator field carries a node across the recursion
 			m.RunProgPathPairs(s, "R-ERRLINE") // a program parsed from a file is handed on with that file's path
+			m.RunErrKeep(s, "R-ERRLINE")       // the first error the parser met stays the first of its list
 			m.RunErrSameFile(s, "R-ERRLINE")   // a slot error of a component use carries a line of the file whose path it carries
 			m.RunNoReadPastEnd(s, "R-TOKPOS")  // an unterminated string or comment does not push the position past the input
 			m.RunIllegalSticky(s, "R-ILLEGAL")
